@@ -20,7 +20,9 @@
 From Verif Require Import Common.Base.
 Local Open Scope Z_scope.
 
-(* ---- errors: a linear chain of wrappers, outermost first, around an opaque base error -------- *)
+(* ---- errors: trees.  A node is the opaque base error, a wrapper with ONE wrapped error
+   (Unwrap() error), or a combination of several errors (Unwrap() []error: errors.Join, fmt.Errorf
+   with several %w, go.uber.org/multierr) ------------------------------------------------------- *)
 Inductive signal := SLogs | STraces | SMetrics.
 
 Definition signal_eqb (a b : signal) : bool :=
@@ -33,27 +35,49 @@ Inductive layer :=
 | LShutdown                               (* experr.NewShutdownErr *)
 | LWrap.                                  (* fmt.Errorf("...: %w", err) *)
 
-Definition err := list layer.
+Inductive err :=
+| EBase                                   (* errors.New(...), ctx.Err() *)
+| EWrap (l : layer) (e : err)
+| EJoin (es : list err).
 
-(* errors.As walks the chain from the outside and stops at the first layer of the target type *)
-Definition is_permanent (e : err) : bool :=
-  existsb (fun l => match l with LPerm => true | _ => false end) e.
+(* a linear chain of wrappers, outermost first, around the base error *)
+Fixpoint echain (ls : list layer) : err :=
+  match ls with [] => EBase | l :: r => EWrap l (echain r) end.
 
-Definition is_shutdown (e : err) : bool :=
-  existsb (fun l => match l with LShutdown => true | _ => false end) e.
-
-Fixpoint throttle_of (e : err) : option Z :=
+(* errors.As(err, &target): depth-first, pre-order; a node is examined before what it wraps, the
+   members of a combination from left to right; the first node of the target type wins *)
+Fixpoint find_layer {A} (f : layer -> option A) (e : err) : option A :=
   match e with
-  | [] => None
-  | LThrottle d :: _ => Some d
-  | _ :: r => throttle_of r
+  | EBase => None
+  | EWrap l e' => match f l with Some a => Some a | None => find_layer f e' end
+  | EJoin es =>
+    (fix go (es : list err) : option A :=
+       match es with
+       | [] => None
+       | x :: r => match find_layer f x with Some a => Some a | None => go r end
+       end) es
   end.
 
-Fixpoint partial_of (s : signal) (e : err) : option (list Z) :=
+Definition is_some {A} (o : option A) : bool := match o with Some _ => true | None => false end.
+
+Definition is_permanent (e : err) : bool :=
+  is_some (find_layer (fun l => match l with LPerm => Some tt | _ => None end) e).
+
+Definition is_shutdown (e : err) : bool :=
+  is_some (find_layer (fun l => match l with LShutdown => Some tt | _ => None end) e).
+
+Definition throttle_of (e : err) : option Z :=
+  find_layer (fun l => match l with LThrottle d => Some d | _ => None end) e.
+
+Definition partial_of (s : signal) (e : err) : option (list Z) :=
+  find_layer (fun l => match l with LPartial s' rem => if signal_eqb s s' then Some rem else None | _ => None end) e.
+
+(* a layer satisfying p occurs somewhere in the tree *)
+Fixpoint occurs (p : layer -> bool) (e : err) : bool :=
   match e with
-  | [] => None
-  | LPartial s' rem :: r => if signal_eqb s s' then Some rem else partial_of s r
-  | _ :: r => partial_of s r
+  | EBase => false
+  | EWrap l e' => p l || occurs p e'
+  | EJoin es => existsb (occurs p) es
   end.
 
 (* logsRequest.OnError and twins: the request is REPLACED by the data carried by the first
@@ -138,7 +162,7 @@ Definition ctx_done (sc : scenario) : option Z := omin (sc_deadline sc) (sc_canc
    first, in which case it returns the context's error (a plain, non-permanent error) then *)
 Definition effective (sc : scenario) (s : Z) (a : attempt) : Z * result :=
   match att_done sc s with
-  | Some c => if c <? s + a_dur a then (Z.max c s, RErr []) else (s + a_dur a, a_res a)
+  | Some c => if c <? s + a_dur a then (Z.max c s, RErr EBase) else (s + a_dur a, a_res a)
   | None => (s + a_dur a, a_res a)
   end.
 
@@ -233,7 +257,7 @@ Definition do_step (sc : scenario) (n : nat) (now : Z) (pl : list Z) (cur : Z) (
   let c := sc_cfg sc in
   let e := fst (effective sc now a) in
   let r := snd (effective sc now a) in
-  let ch := match r with RErr ch => ch | ROk => [] end in
+  let ch := match r with RErr ch => ch | ROk => EBase end in
   let cur1 := reset_cur c cur in
   let next := rand_interval c cur1 (draw_at sc n) in
   let delay := match throttle_of ch with Some d => Z.max next d | None => next end in   (* max(backoffDelay, throttleErr.delay) *)
@@ -265,19 +289,19 @@ Definition run (sc : scenario) (script : list attempt) : list step * verdict :=
 Definition steps_of (sc : scenario) (script : list attempt) : list step := fst (run sc script).
 Definition verdict_of (sc : scenario) (script : list attempt) : verdict := snd (run sc script).
 
-(* the error value returned by Send, as a chain *)
+(* the error value returned by Send *)
 Definition last_err (l : list step) : err :=
   match last_opt l with
-  | Some st => match s_res st with RErr ch => ch | ROk => [] end
-  | None => []
+  | Some st => match s_res st with RErr ch => ch | ROk => EBase end
+  | None => EBase
   end.
 
 Definition final_err (v : verdict) (ch : err) : option err :=
   match v with
   | VOk | VPending => None
   | VRaw => Some ch
-  | VShutdown => Some (LShutdown :: ch)
-  | _ => Some (LWrap :: ch)
+  | VShutdown => Some (EWrap LShutdown ch)
+  | _ => Some (EWrap LWrap ch)
   end.
 
 Definition final_is_shutdown (sc : scenario) (script : list attempt) : bool :=
